@@ -159,8 +159,8 @@ Usage:
 		cli.argvalues = append(cli.argvalues, v)
 	}
 	for k, v := range opts.ArgJSON {
-		val, _ := newJSONInputIter(strings.NewReader(v), "$"+k).Next()
-		if err, ok := val.(error); ok {
+		val, err := parseJSONValue(v, "$"+k)
+		if err != nil {
 			return err
 		}
 		cli.argnames = append(cli.argnames, "$"+k)
@@ -189,8 +189,8 @@ Usage:
 	positional := opts.Args
 	for i, v := range opts.JSONArgs {
 		if v != nil {
-			val, _ := newJSONInputIter(strings.NewReader(v.(string)), "--jsonargs").Next()
-			if err, ok := val.(error); ok {
+			val, err := parseJSONValue(v.(string), "--jsonargs")
+			if err != nil {
 				return err
 			}
 			if i < len(positional) {
@@ -285,6 +285,25 @@ func slurpFile(name string) (any, error) {
 	val, _ := iter.Next()
 	if err, ok := val.(error); ok {
 		return nil, err
+	}
+	return val, nil
+}
+
+// parseJSONValue parses a text which should consist of exactly one JSON value.
+func parseJSONValue(text, name string) (any, error) {
+	iter := newJSONInputIter(strings.NewReader(text), name)
+	val, ok := iter.Next()
+	if !ok {
+		return nil, fmt.Errorf("invalid json: %s: unexpected end of JSON input", name)
+	}
+	if err, ok := val.(error); ok {
+		return nil, err
+	}
+	if next, ok := iter.Next(); ok {
+		if err, ok := next.(error); ok {
+			return nil, err
+		}
+		return nil, fmt.Errorf("invalid json: %s: unexpected value after the top-level value", name)
 	}
 	return val, nil
 }
